@@ -303,7 +303,8 @@ def _tc_script(rec: Rec, case, f, spec, nontrivial, routes, deep, keeper):
             # the caller's header arrives with whatever length it carried before (a header re-used for the next telecommand, a
             # placeholder): the constructor derives the length field from the application data, whatever was there
             stale = (0, 0x0123, 6, 0xFFFF)[(apid + cnt + len(data)) % 4]
-            a = m.PusTc.from_sp_header(SpacePacketHeader(PacketType.TC, apid, cnt, stale), svc, sub, data, src, ack)
+            # ... and whatever packet type (the constructor makes it a telecommand header)
+            a = m.PusTc.from_sp_header(SpacePacketHeader(PacketType.TC if (apid + cnt) % 2 else PacketType.TM, apid, cnt, stale), svc, sub, data, src, ack)
             ra = bytes(a.pack())
             if ra != ref:
                 bad("encode/PusTc.from_sp_header/octets/" + _region(ra, ref), short(ra), short(ref))
@@ -623,6 +624,12 @@ def run_shard(item):
     keeper = None
     if kind in ("sweep", "edge", "payload", "lengths", "len-sweep"):
         keeper = Keeper(rec, PROPERTY, depth=keep_depth(kind in ("edge", "lengths"), bool(item.get("all_deep")) or kind == "lengths"))
+    if kind == "sweep" and item["axis"] == 0 and item["lo"] == 0:
+        # telecommands that exist in every mission, with application data: the ping TC[17,1], housekeeping TC[3,x], event TC[5,x]
+        # with subservices the library's own enumerations do not list (the codec carries numbers, not meanings)
+        for svc, sub in ((17, 1), (17, 2), (3, 1), (3, 3), (3, 27), (5, 7), (5, 8), (1, 1), (8, 1), (20, 3)):
+            for data in (b"", b"\x01\x02", b"\x00", bytes(16)):
+                check_tc(rec, (svc, sub, 0x42, 0x11, 1, 9), ("hex", data.hex()), routes=True, deep=True, keeper=keeper)
     if kind == "sweep":
         axis = item["axis"]
         n = BITS[axis]
